@@ -28,14 +28,14 @@ REACH = ["predict_win", "predict_draw", "predict_rank", "_check_teams", "rate", 
 
 def floors(tier):
     q = tier == "quick"
-    return {"predict/cross-model": 20000 if q else 400000, "accept-reject/cross-model": 10000 if q else 150000,
-            "signature": 20, "rating-class/pattern": 3000 if q else 60000, "bt-part==bt-full": 6000 if q else 120000}
+    return {"predict/cross-model": 20000 if q else 2000000, "accept-reject/cross-model": 10000 if q else 750000,
+            "signature": 20, "rating-class/pattern": 3000 if q else 300000, "bt-part==bt-full": 6000 if q else 600000}
 
 
 def generate(ctx):
     if ctx.shard == 0:
         yield "sig", {}
-    n = ctx.budget(8000, 150000)
+    n = ctx.budget(8000, 750000)
     for _ in range(n):
         case, meta = gen_pred_case(ctx.rng)
         yield "pred", dict(case=case, meta=meta)
@@ -43,12 +43,12 @@ def generate(ctx):
         cfg = gen.gen_cfg(ctx.rng)
         case, meta = gen.gen_case(ctx.rng, model="BradleyTerryFull", cfg=cfg, kmax=2)
         yield "bt2", dict(case=case, meta=meta)
-    nb = ctx.budget(36, 600)
+    nb = ctx.budget(36, 3000)
     for _ in range(nb):
         case, meta = gen.gen_case(ctx.rng, model="PlackettLuce", kmax=4, pmax=2, int_only=True, percall=False,
                                   regime=ctx.rng.choice(["typical", "equal_size"]))
         yield "grammar", dict(case=case, meta=meta)
-    for _ in range(ctx.budget(1000, 20000)):
+    for _ in range(ctx.budget(1000, 100000)):
         vals = []
         for _ in range(6):
             r = ctx.rng.random()
